@@ -1679,7 +1679,8 @@ class zip(Stream):
         inp = list(tup)[::-1]
         out = []
         for i, val in self.literals:
-            while len(out) < i:
+            # ``inp`` runs out early when inputs have been disconnected
+            while len(out) < i and inp:
                 out.append(inp.pop())
             out.append(val)
 
